@@ -15,7 +15,8 @@ RULE = ("A registry of public functions and methods, each called on generated ar
         "sequence functions (get_kmers, get_minimizers, match_string, get_motif_scores, count_kmers, get_reverse_complement, "
         "translate_dna_to_protein, get_strand_specific_sequences), encoding changes (as_encoded_array to another alphabet, change_encoding), "
         "genomic-data methods (get_mask, get_pileup, merged, clip, extended_to_size, sorted, get_location, array arithmetic and histogram), "
-        "table methods (indexing, concatenate, sort_by, replace, add_fields, tolist, todict, topandas), and field access on lazily read chunks of "
+        "table methods (indexing, concatenate, sort_by, replace, add_fields, tolist, todict, topandas), file writers (a Bed6, VCF, FASTA and FASTQ table handed to bnp.open(path, 'w').write), "
+        "alignment_to_interval on records with 16-bit flags, and field access on lazily read chunks of "
         "every text format and every field (BED12 lists, typed VCF INFO, genotype matrices, narrowPeak floats, signed integers) in a generated "
         "order, on the chunk and on slices of it. Arguments are passed both as freshly built arrays and as views into a larger buffer. "
         "Oracle: a deep snapshot of every argument (and of the buffer a view was taken from) before the call equals the snapshot after it "
@@ -30,7 +31,7 @@ ASSUMPTIONS = [
 ]
 REQUIRED_CLASSES = ["bam", "bam-observe-after-write", "view-argument", "never-read-argument", "signed-numbers", "scientific-floats", "list-valued-column", "genotype-column", "merge-distance>0", "typed-info",
                     "lazy-chunk", "strops", "intervals", "sequence", "encoding", "genomic", "table"]
-BOUNDS = {"quick": "60 calls per registry entry (56 entries) plus 120 lazily read chunks per format (12 formats)", "thorough": "1500 calls per entry, 2500 chunks per format"}
+BOUNDS = {"quick": "60 calls per registry entry (61 entries) plus 120 lazily read chunks per format (12 formats)", "thorough": "1500 calls per entry, 2500 chunks per format"}
 BUDGET_S = {"quick": 200, "thorough": 1500}
 
 
@@ -382,6 +383,59 @@ def registry():
                 return [t], lambda: fn(t, c)
             return f
         reg(name, "table")(mk())
+
+    # --- writers: handing a table to a file writer leaves the table as it was, and writing it again gives the same bytes ------------------
+    def written(t, suffix, buffer_type=None):
+        import tempfile
+        with tempfile.TemporaryDirectory(prefix="pbtc20", dir="/dev/shm" if os.path.isdir("/dev/shm") else None) as d_:
+            path = os.path.join(d_, "out" + suffix)
+            with (bnp.open(path, "w", buffer_type=buffer_type) if buffer_type is not None else bnp.open(path, "w")) as fh:
+                fh.write(t)
+            with open(path, "rb") as fh:
+                return fh.read().decode("latin-1")
+
+    def vcf_table(c):
+        from bionumpy.datatypes import VCFEntry
+        n = len(c["words"])
+        return VCFEntry([w or "c" for w in c["words"]], np.array([abs(c["ints"][i % len(c["ints"])]) % 10 ** 9 for i in range(n)], dtype=int), ["id%d" % i for i in range(n)],
+                        [(c["dna"][i % len(c["dna"])] or "A") for i in range(n)], ["T"] * n, ["."] * n, ["PASS"] * n, ["."] * n)
+
+    def seq_table(c, with_quality):
+        rows = [d for d in c["dna"]] if not with_quality else [d or "A" for d in c["dna"]]
+        names = ["r%d" % i for i in range(len(rows))]
+        if with_quality:
+            from bionumpy.encodings import QualityEncoding
+            return bnp.SequenceEntryWithQuality(names, rows, bnp.as_encoded_array(["I" * len(r) for r in rows], QualityEncoding))
+        return bnp.SequenceEntry(names, [r or "A" for r in rows])
+
+    for name, mkt, suffix in (("write(Bed6)", table, ".bed"), ("write(VCFEntry)", vcf_table, ".vcf"),
+                              ("write(SequenceEntry)", lambda c: seq_table(c, False), ".fa"),
+                              ("write(SequenceEntryWithQuality)", lambda c: seq_table(c, True), ".fq")):
+        def mk(mkt=mkt, suffix=suffix):
+            def f(c):
+                t = mkt(c)
+                bt = None
+                if suffix == ".bed":
+                    from bionumpy.io.delimited_buffers import Bed6Buffer
+                    bt = Bed6Buffer
+                return [t], lambda: written(t, suffix, bt)
+            return f
+        reg(name, "writer")(mk())
+
+    @reg("alignment_to_interval", "alignments")
+    def _(c):
+        # alignment records as the BAM reader hands them out: 16-bit flags, 32-bit positions, ragged CIGAR columns
+        from bionumpy.datatypes import BamEntry
+        from bionumpy.encodings import CigarOpEncoding, QualityEncoding
+        n = len(c["ivs"])
+        flags = np.array([(abs(c["ints"][i % len(c["ints"])]) % 4096) for i in range(n)], dtype=np.uint16)
+        pos = np.array([a for a, b in c["ivs"]], dtype=np.int32)
+        ops = bnp.as_encoded_array(["MIDNS"[: 1 + (b - a) % 5] for a, b in c["ivs"]], CigarOpEncoding)
+        lens = RaggedArray([[1 + (a + j) % 7 for j in range(1 + (b - a) % 5)] for a, b in c["ivs"]])
+        seqs = [c["dna"][i % len(c["dna"])] or "A" for i in range(n)]
+        t = BamEntry(["chr1"] * n, ["r%d" % i for i in range(n)], flags, pos, np.array([30] * n, dtype=np.uint8), ops, lens,
+                     bnp.as_encoded_array(seqs, bnp.encodings.BamEncoding), bnp.as_encoded_array(["I" * len(s_) for s_ in seqs], QualityEncoding))
+        return [t, flags, pos], lambda: bnp.alignments.alignment_to_interval(t)
     return R
 
 
